@@ -8,45 +8,20 @@ pub mod oracle {
     pub const DOM_SHA3_384: u8 = 4;
     pub const DOM_SHA3_512: u8 = 5;
     pub const DOM_KMAC: u8 = 6;
-
-    pub const MAXQ: usize = 20;
+    pub const MAXQ: usize = 24;
     pub const MAXIN: usize = 72;
     pub const OUT: usize = 64;
-
     pub static mut N: usize = 0;
     pub static mut DOMS: [u8; MAXQ] = [0; MAXQ];
     pub static mut LENS: [usize; MAXQ] = [0; MAXQ];
-    pub static mut INS: [[u8; MAXIN]; MAXQ] = [[0; MAXIN]; MAXQ];
-    pub static mut OUTS: [[u8; OUT]; MAXQ] = [[0; OUT]; MAXQ];
-
+    /// Recording stub: logs domain and length of the query, returns an unconstrained answer.
     pub fn query(dom: u8, input: &[u8]) -> [u8; OUT] {
         unsafe {
             assert!(input.len() <= MAXIN, "oracle input too long");
-            let mut padded = [0u8; MAXIN];
-            padded[..input.len()].copy_from_slice(input);
-            let mut i = 0;
-            while i < N {
-                if DOMS[i] == dom && LENS[i] == input.len() && INS[i] == padded {
-                    return OUTS[i];
-                }
-                i += 1;
-            }
             assert!(N < MAXQ, "too many oracle queries");
             let out: [u8; OUT] = kani::any();
-            let t: [u8; 16] = out[..16].try_into().unwrap();
-            let u: [u8; 32] = out[16..48].try_into().unwrap();
-            let mut i = 0;
-            while i < N {
-                let ti: [u8; 16] = OUTS[i][..16].try_into().unwrap();
-                let ui: [u8; 32] = OUTS[i][16..48].try_into().unwrap();
-                kani::assume(ti != t);
-                kani::assume(ui != u);
-                i += 1;
-            }
             DOMS[N] = dom;
             LENS[N] = input.len();
-            INS[N] = padded;
-            OUTS[N] = out;
             N += 1;
             out
         }
@@ -124,6 +99,7 @@ pub mod hstub {
         unsafe { std::mem::transmute::<(u64, u64), std::hash::RandomState>((0x0123456789abcdefu64, 0xfedcba9876543210u64)) }
     }
     pub fn noop_barrier<T: ?Sized>(_val: &T) {}
+    pub fn noop_zeroize_secret<const LENGTH: usize>(_s: &mut cosmian_crypto_core::Secret<LENGTH>) {}
     pub fn right_eq(a: &crate::abe_policy::Right, b: &crate::abe_policy::Right) -> bool {
         let n = a.0.len();
         if n != b.0.len() { return false; }
